@@ -155,6 +155,9 @@ struct Thread {
     bool timed_out = false;
     bool reacquire = false;  // blocked re-acquiring a mutex after a condition wait
     int ret_slot = -1, ret_frame = -1;  // where a timed wait's return code lives
+    uint64_t hook_cv = 0, hook_mutex = 0;  // single-threaded wait: condvar being waited on while verif_wait_hook runs
+    bool hook_timed = false;
+    Val wait_deadline;
     std::vector<std::pair<uint64_t, uint64_t>> tls_dtors;
 };
 
@@ -178,6 +181,7 @@ struct State {
     uint64_t dhash = 1469598103934665603ULL;
     uint32_t depth = 0;
     Val clock;
+    int64_t clk_step_lo = 1000, clk_step_hi = 1000, clk_late_max = 0;
     bool gated = false;
     int preempt = 0;
     std::string decisions;  // compact decision string (for diagnostics)
@@ -1232,6 +1236,7 @@ struct Engine {
             fork_alternatives(S, (int)tw.size(), [&](State &X, int i) {
                 Thread &W = X.th[tw[i]];
                 W.status = TH_RUN; W.notified = false; W.timed_out = true; W.timed = false;
+                clock_timeout_advance(X, W);
                 if (W.ret_slot >= 0 && W.ret_frame >= 0 && W.ret_frame < (int)W.st.size()) W.st[W.ret_frame].regs[W.ret_slot] = Val::C(32, 110);  // ETIMEDOUT
                 X.cur = tw[i];
                 reacquire_after_wait(X, X.cur);
@@ -1270,6 +1275,9 @@ struct Engine {
     void register_builtins();
     void add_builtin(const std::string &name, Builtin b) { builtin_id[name] = (int)builtins.size(); builtins.push_back(std::move(b)); builtin_names.push_back(name); }
     void end_path(State &S, const PathEnd &pe);
+    Val fresh_input_range(State &S, const std::string &name, int64_t lo, int64_t hi);
+    void wait_continue(State &S, const InstInfo &ii);
+    void clock_timeout_advance(State &S, Thread &T);
     void record_violation(State &S, const std::string &id, const std::string &kind, const Assign &m, const std::string &where);
     std::string where(State &S);
     void write_output();
